@@ -115,7 +115,19 @@ type Obligation struct {
 	// thorough-only overrides
 	Params map[string]int `json:"params"`
 	ThoroughParams map[string]int `json:"thorough_params"`
+	Merge []string `json:"merge"` // side-effect-free callees whose paths are merged into ite terms
+	mergeM map[string]bool
 	tierRun string
+}
+
+func (o *Obligation) mergeSet() map[string]bool {
+	if o.mergeM == nil {
+		o.mergeM = map[string]bool{}
+		for _, m := range o.Merge {
+			o.mergeM[m] = true
+		}
+	}
+	return o.mergeM
 }
 
 func (o *Obligation) unwind() int {
